@@ -21,6 +21,11 @@ def base_exptr(name):
   from vizier._src.benchmarks.experimenters.synthetic import branin
   if name == 'Branin':
     return branin.Branin2DExperimenter()
+  if name == 'MultiObjective':
+    from vizier._src.benchmarks.experimenters import multiobjective_experimenter
+    return multiobjective_experimenter.MultiObjectiveExperimenter({
+        'f1': numpy_experimenter.NumpyExperimenter(bbob.Sphere, bbob.DefaultBBOBProblemStatement(2)),
+        'f2': numpy_experimenter.NumpyExperimenter(bbob.BuecheRastrigin, bbob.DefaultBBOBProblemStatement(2))})
   return numpy_experimenter.NumpyExperimenter(getattr(bbob, name), bbob.DefaultBBOBProblemStatement(2))
 
 
@@ -93,7 +98,7 @@ def interval(v, tol=1e-9):
 
 def observe(term, rng):
   seed = rng.randrange(1, 10 ** 6)
-  rec = {'term': term, 'refused': False, 'outer': term['ws'][-1] if term['ws'] else 'Base', 'law': 'none', 'extra_ok': True, 'statement_by_value': True, 'trials': []}
+  rec = {'term': term, 'refused': False, 'outer': term['ws'][-1] if term['ws'] else 'Base', 'law': 'none', 'extra_ok': True, 'statement_by_value': True, 'trials': [], 'batch_equals_single': True}
   try:
     def build(sd):
       e = base_exptr(term['base'])
@@ -104,18 +109,20 @@ def observe(term, rng):
     outer_name = rec['outer']
     exptr = wrap(inner, outer_name, seed) if term['ws'] else inner
     ps = exptr.problem_statement()
-    mname = ps.metric_information.item().name
+    mnames = [m.name for m in ps.metric_information]
+    mname = mnames[0]
     # problem statement by value
     p1 = exptr.problem_statement()
     p1.search_space.root.add_float_param('hack', 0.0, 1.0)
-    p1.metric_information.append(type(p1.metric_information.item())('extra', goal=p1.metric_information.item().goal))
+    first_mi = list(p1.metric_information)[0]
+    p1.metric_information.append(type(first_mi)('extra', goal=first_mi.goal))
     p2 = exptr.problem_statement()
-    rec['statement_by_value'] = ('hack' not in [p.name for p in p2.search_space.parameters]) and len(list(p2.metric_information)) == 1 and p2 == ps
+    rec['statement_by_value'] = ('hack' not in [p.name for p in p2.search_space.parameters]) and len(list(p2.metric_information)) == len(mnames) and p2 == ps
     pts = sample_points(ps, rng)
     trials = evaluate(exptr, pts)
     # the inner experimenter at the mapped point (law-specific)
     inner_ps = inner.problem_statement()
-    iname = inner_ps.metric_information.item().name
+    iname = [m.name for m in inner_ps.metric_information][0]
     mapped = []
     for p in pts:
       q = dict(p)
@@ -136,7 +143,7 @@ def observe(term, rng):
     for i, (p, t) in enumerate(zip(pts, trials)):
       v = value_of(t, mname)
       kept = {k: x.value for k, x in t.parameters.items()} == p and all(type(t.parameters[k].value) is type(p[k]) for k in p)
-      row = {'status': 'INFEASIBLE' if t.infeasible else t.status.name, 'metrics_ok': bool(t.infeasible or (t.final_measurement is not None and set(t.final_measurement.metrics) >= {mname})),
+      row = {'status': 'INFEASIBLE' if t.infeasible else t.status.name, 'metrics_ok': bool(t.infeasible or (t.final_measurement is not None and set(t.final_measurement.metrics) >= set(mnames))),
              'params_kept': bool(kept), 'val': fkey.key(v if v is not None else 0.0), 'inner': fkey.key(0.0), 'lo': fkey.key(0.0), 'hi': fkey.key(0.0), 'inner_infeasible': False}
       if inner_trials is not None:
         iv = value_of(inner_trials[i], iname)
@@ -147,6 +154,15 @@ def observe(term, rng):
           pred = -iv if outer_name == 'SignFlip' else iv
           row['lo'], row['hi'] = interval(pred)
       rec['trials'].append(row)
+    # every trial gets ITS metrics whatever the batch size: the same points evaluated one at a time by a fresh instance
+    if 'Noisy' not in term['ws']:
+      fresh = wrap(build(seed), outer_name, seed) if term['ws'] else build(seed)
+      single = []
+      for p in pts:
+        t1 = evaluate(fresh, [p])[0]
+        single.append([value_of(t1, m) for m in mnames] + [t1.infeasible])
+      batch = [[value_of(t, m) for m in mnames] + [t.infeasible] for t in trials]
+      rec['batch_equals_single'] = bool(batch == single)
     # wrapper-specific extras
     if 'Noisy' in term['ws'][:-1]:
       pass
